@@ -139,6 +139,8 @@ def render(spec, n):
     src = [PRELUDE]
     if spec["ballast"]:
         src.append("var ballast = []; { var j = 0; while j < %d { ballast.push([j]); j = j + 1; } }" % spec["ballast"])
+    if spec.get("live"):
+        src.append(render_live(spec["live"]))
     src.append("var keep = [%s];" % ", ".join(["nil"] * max(1, spec["ring"])))
     ind = "\n    ".join(body)
     w = spec["wrap"]
@@ -155,6 +157,179 @@ def render(spec, n):
     else:
         src.append("var i = 0;\nwhile i < %d {\n  var step = |i| {\n    %s\n  };\n  step(i);\n  i = i + 1;\n}\nprint(i);" % (n, ind))
     return "\n".join(src) + "\n"
+
+
+# ---------------------------------------------------------------------------------------------------------
+# round 9: the SHAPE of the bounded live set held while the garbage loop runs, as a scale dimension (notes/C16.md, Round 9).
+# The oracle is the one of every loop program and does not depend on the size: counts by kind after N and 2N iterations are
+# equal, the pacing bound holds at every record of the release log, bytes_allocated == sum of live sizes.
+LIVE_PRE = """fn lk_c(v, n) { return |k| { if k == 0 { return v; } return n; }; }
+fn lk_f(v, n) { var f = Fiber.new(|a| { Fiber.yield(0); return a; }); f.call((v, n)); return f; }
+fn lk_s(v, n) { var pair = (v, n); fn a() { return pair[0]; } fn b() { return pair[1]; } return (a, b); }
+fn lk_sub(c) { #[derive(c), constructor(new)] class S_ {} return S_; }
+var live_ = nil;
+"""
+# one link of a deep chain: live_ := a fresh object holding (j, live_); boxes per link on the path in the comment
+LIVE_LINK = {
+    "field": "var o_ = A.new(); o_.x = j; o_.nx = live_; live_ = o_;",           # instance field (1)
+    "vec": "live_ = [j, live_];",                                               # vec element (1)
+    "tuple": "live_ = (j, live_);",                                             # tuple element (1)
+    "map": 'live_ = {"v": j, "n": live_};',                                     # map value (1)
+    "closure": "live_ = lk_c(j, live_);",                                       # closure -> closed upvalue (2)
+    "bound": "live_ = D.new((j, live_)).get;",                                  # bound method -> receiver -> tuple (3)
+    "iter": "live_ = [j, live_].iter();",                                       # vec iterator -> vec (2)
+    "shared": "live_ = lk_s(j, live_);",                                        # tuple -> closure -> shared upvalue -> tuple (4)
+    "fiber": "live_ = lk_f(j, live_);",                                         # suspended fiber's stack -> tuple (2), 256 KB stack each
+}
+LIVE_ITEM = {"num": "j", "vec": "[j]", "inst": "D.new(j)", "closure": "mk(j)", "tuple": "(j, j)", "map": "{j: j}", "bound": "D.new(j).get",
+             "iter": "[j].iter()", "fiber": "lk_f(j, nil)", "fiber_new": "Fiber.new(|a| a)", "range": "(j..(j + 2))", "str": '"s${j}"'}
+LIVE_ANCHOR = {
+    "global": "",
+    "upvalue": "var live_h = (|| { var x = live_; return || x; })(); live_ = nil;",
+    "fiber": "var live_f = Fiber.new(|a| { var x = a; Fiber.yield(0); return x; }); live_f.call(live_); live_ = nil;",
+    "field": "var live_o = A.new(); live_o.x = [live_]; live_ = nil;",
+}
+CHAIN_LADDER = [17, 129, 600, 1100, 3000]
+WIDE_LADDER = [300, 5000, 12000]   # boxes; a collection of the unchanged tree is quadratic in the number of live boxes (20000: 5 s, 40000: 35 s): 70000 only for unboxed items
+# collect-at-every-allocation (debug build) re-traces the live set at every allocation: caps per shape
+LIVE_DEBUG_CAP = {"chain": 600, "append": 600, "wide_vec": 1000, "wide_map": 1000, "class": 129, "tree": 511}
+LIVE_DEBUG_CAP_KIND = {"fiber": 65, "fiber_new": 300, "shared": 300, "bound": 300, "closure": 300, "iter": 300}
+
+
+# boxes per link / item (measured, approximate): a collection of the unchanged tree is quadratic in the number of live boxes
+# (9000 boxes: 3.6 s for the whole run, 15000: 20 s), so the LENGTH of the chain / container is capped by a box budget
+LIVE_BOXES = {"field": 1, "vec": 1, "tuple": 1, "map": 1, "closure": 3, "bound": 4, "iter": 2, "shared": 5, "fiber": 2,
+              "num": 0, "inst": 2, "str": 1, "range": 1, "fiber_new": 2}
+LIVE_ITEM_BOXES = {"closure": 2, "bound": 3, "fiber": 4, "tuple": 1, "vec": 1, "map": 1, "iter": 2}
+
+
+def live_fit(lv, budget):
+    if lv["shape"] == "chain":
+        per = sum(LIVE_BOXES[k] for k in lv["kinds"]) / float(len(lv["kinds"]))
+    elif lv["shape"] in ("wide_vec", "wide_map"):
+        per = LIVE_ITEM_BOXES.get(lv["item"], LIVE_BOXES.get(lv["item"], 1))
+    else:
+        per = 3 if lv["shape"] == "class" else 1
+    return dict(lv, n=min(lv["n"], int(budget / per))) if per else lv
+
+
+def render_live(lv):
+    n, shape = lv["n"], lv["shape"]
+    loop = "{ var j = 0; while j < %d { %%s } }" % n
+    if shape == "chain":
+        kinds = lv["kinds"]
+        body = " ".join("%s j = j + 1;" % LIVE_LINK[k] for k in kinds)
+        code = "{ var j = 0; while j < %d { %s } }" % (n - n % len(kinds), body)
+    elif shape == "append":        # built from the head: the OLDEST link is the one the root points to
+        code = "{ var t_ = A.new(); t_.x = 0; live_ = t_; var j = 1; while j < %d { var o_ = A.new(); o_.x = j; t_.nx = o_; t_ = o_; j = j + 1; } }" % n
+    elif shape == "wide_vec":
+        code = "live_ = []; " + loop % ("live_.push(%s); j = j + 1;" % LIVE_ITEM[lv["item"]])
+    elif shape == "wide_map":
+        code = "live_ = {}; " + loop % ("live_.insert(j, %s); j = j + 1;" % LIVE_ITEM[lv["item"]])
+    elif shape == "class":         # deep class hierarchy, an instance of the newest class is the live data
+        code = "{ var h_ = A; var j = 0; while j < %d { h_ = lk_sub(h_); j = j + 1; } live_ = h_.new(); }" % n
+    elif shape == "tree":          # n nodes, heap-shaped binary tree of instances (depth log n, every node has a parent link too)
+        code = ("{ var ns_ = []; var pi_ = 0; var j = 0; while j < %d { var o_ = A.new(); o_.x = j; if j > 0 { var p_ = ns_[pi_]; o_.up = p_; "
+                "if j %% 2 == 1 { p_.l = o_; } else { p_.r = o_; pi_ = pi_ + 1; } } ns_.push(o_); j = j + 1; } live_ = ns_[0]; }" % n)
+    else:
+        raise ValueError(shape)
+    return LIVE_PRE + code + "\n" + LIVE_ANCHOR[lv.get("anchor", "global")]
+
+
+def live_debug(lv):
+    """the same shape, small enough for the debug build"""
+    cap = LIVE_DEBUG_CAP[lv["shape"]]
+    for k in lv.get("kinds", []) + ([lv["item"]] if lv.get("item") else []):
+        cap = min(cap, LIVE_DEBUG_CAP_KIND.get(k, cap))
+    return dict(lv, n=min(lv["n"], cap))
+
+
+def live_name(lv):
+    return "%s/%s/%d/%s" % (lv["shape"], "+".join(lv.get("kinds", [])) or lv.get("item", "-"), lv["n"], lv.get("anchor", "global"))
+
+
+def live_loop_spec(rng, lv):
+    """a garbage loop (1-3 fragments, small ring) running while the live set `lv` is held"""
+    frs = []
+    for _ in range(rng.choice([1, 2, 3])):
+        f = rng.choice(FRAGS)[0]
+        if f not in frs:
+            frs.append(f)
+    if rng.random() < 0.5 and "inst" not in frs:
+        frs.append("inst")
+    ring = rng.choice([0, 5])
+    return {"frags": frs, "kept": [f for f in frs if FRAG_BY_NAME[f][2] and ring and rng.random() < 0.5], "ring": ring,
+            "wrap": rng.choice(WRAPS), "ballast": 0, "probe": rng.choice([0, 50]), "live": lv}
+
+
+def gen_live_specs(rng, level):
+    """level 'quick': every chain kind once at a rung >= 1100 + a few small rungs + wide/class/fiber/tree sets;
+    'thorough' / 'search': every kind x the whole ladder"""
+    kinds = [k for k in LIVE_LINK if k != "fiber"]
+    anchors = list(LIVE_ANCHOR)
+    lvs = []
+    if level == "quick":
+        for k in kinds:
+            lvs.append({"shape": "chain", "kinds": [k], "n": rng.choice([1100, 3000]), "anchor": rng.choice(anchors)})
+        lvs.append({"shape": "append", "n": rng.choice([1100, 3000]), "anchor": rng.choice(anchors)})
+        lvs.append({"shape": "chain", "kinds": [rng.choice(kinds) for _ in range(rng.randint(2, 4))], "n": rng.choice([1100, 3000, 5000]), "anchor": rng.choice(anchors)})
+        for _ in range(2):
+            lvs.append({"shape": "chain", "kinds": [rng.choice(kinds)], "n": rng.choice([17, 129, 600]), "anchor": rng.choice(anchors)})
+        lvs.append({"shape": "chain", "kinds": ["fiber"], "n": rng.choice([17, 129, 600]), "anchor": "global"})
+        lvs.append({"shape": "wide_vec", "item": rng.choice(["vec", "inst", "closure", "tuple", "bound"]), "n": rng.choice([5000, 12000]), "anchor": rng.choice(anchors)})
+        lvs.append({"shape": rng.choice(["wide_vec", "wide_map"]), "item": "num", "n": 70000, "anchor": rng.choice(anchors)})
+        lvs.append({"shape": "wide_vec", "item": rng.choice(list(LIVE_ITEM)), "n": rng.choice([300, 5000]), "anchor": rng.choice(anchors)})
+        lvs.append({"shape": "wide_map", "item": rng.choice(["vec", "inst"]), "n": rng.choice([300, 5000]), "anchor": rng.choice(anchors)})
+        lvs.append({"shape": "wide_vec", "item": rng.choice(["fiber", "fiber_new"]), "n": rng.choice([129, 600]), "anchor": "global"})
+        lvs.append({"shape": "class", "n": rng.choice([17, 129, 1100]), "anchor": "global"})
+        lvs.append({"shape": "tree", "n": rng.choice([1023, 12000]), "anchor": rng.choice(anchors)})
+    elif level == "thorough":
+        return gen_live_specs(rng, "quick") + gen_live_specs(rng, "quick") + gen_live_specs(rng, "quick")
+    else:
+        big_first = sorted(CHAIN_LADDER, key=lambda x: -x)
+        for n in big_first:
+            for k in kinds:
+                lvs.append({"shape": "chain", "kinds": [k], "n": n, "anchor": rng.choice(anchors)})
+            lvs.append({"shape": "append", "n": n, "anchor": rng.choice(anchors)})
+            lvs.append({"shape": "chain", "kinds": [rng.choice(kinds) for _ in range(rng.randint(2, 5))], "n": n, "anchor": rng.choice(anchors)})
+        lvs.append({"shape": "wide_vec", "item": "num", "n": 70000, "anchor": "global"})
+        lvs.append({"shape": "wide_map", "item": "num", "n": 70000, "anchor": "upvalue"})
+        lvs.append({"shape": "chain", "kinds": ["field", "tuple"], "n": 12000, "anchor": "upvalue"})
+        for n in (17, 129, 600, 1100):
+            lvs.append({"shape": "chain", "kinds": ["fiber"], "n": n, "anchor": "global"})
+        for n in WIDE_LADDER[::-1]:
+            for item in LIVE_ITEM:
+                if item.startswith("fiber") and n > 600:
+                    continue
+                lvs.append({"shape": "wide_vec", "item": item, "n": n, "anchor": rng.choice(anchors)})
+            for item in ("num", "vec", "inst", "closure"):
+                lvs.append({"shape": "wide_map", "item": item, "n": n, "anchor": rng.choice(anchors)})
+        for item in ("fiber", "fiber_new"):
+            for n in (17, 129, 600):
+                lvs.append({"shape": "wide_vec", "item": item, "n": n, "anchor": "global"})
+        for n in (17, 129, 600, 1100, 3000):
+            lvs.append({"shape": "class", "n": n, "anchor": "global"})
+        for n in (1023, 5000, 12000):
+            lvs.append({"shape": "tree", "n": n, "anchor": rng.choice(anchors)})
+    budget = 6500 if level == "quick" else 11000
+    return [live_loop_spec(rng, live_fit(lv, budget)) for lv in lvs]
+
+
+def check_live_shapes(ctx, specs, quick, tag, stop_after=None):
+    """the loop-program oracle on the live-shape programs, in batches (largest first in search); a program that did not
+    complete is run once more alone before it is believed"""
+    out = []
+    step = 12
+    for at in range(0, len(specs), step):
+        res = check_programs(ctx, specs[at:at + step], quick, tag + str(at // step))
+        for j, info in enumerate(res):
+            if any("did not run to completion" in w for _, w, _ in info["problems"]):
+                log("[C16] live-shape program %s did not complete: once more alone" % live_name(info["spec"]["live"]))
+                res[j] = check_programs(ctx, [info["spec"]], quick, tag + "again")[0]
+        out += res
+        if stop_after and sum(1 for i in res if any(l == "violation" for l, _, _ in i["problems"])) >= stop_after:
+            break
+    return out
 
 
 def kinds_of(rec, tag):
@@ -291,6 +466,8 @@ def check_programs(ctx, specs, quick, tag, want_pacing=True):
         lines_rel.append("c16 log=1,dropvm=1 " + hx(render(sp, n1)))
         lines_rel.append("c16 dropvm=1 " + hx(render(sp, n2)))
         dsp = dict(sp, ballast=min(sp["ballast"], 300))   # collect-at-every-allocation: keep the heap small
+        if sp.get("live"):
+            dsp["live"] = live_debug(sp["live"])
         lines_dbg.append("c16 log=1,dropvm=1 " + hx(render(dsp, d1)))
         lines_dbg.append("c16 dropvm=1 " + hx(render(dsp, d2)))
     import time
@@ -344,6 +521,7 @@ def check_programs(ctx, specs, quick, tag, want_pacing=True):
                 ip = indep_size_problem(r, "%s build" % build)
                 if ip and not any(q[1] == ip[1] for q in probs):
                     probs.append(ip)
+        info["nobj"] = runs["rel2"].S[2] if runs["rel2"].S else 0
         if runs["rel2"].S and runs["rel2"].S[3] <= 1:
             info["trivial"] = True   # only the forced collection: the program did not allocate enough
         # debug build: every allocation collects, threshold = GROWTH * survivors
@@ -409,7 +587,7 @@ def shrink_first(ctx, quick):
     if not v or "timeout" in str(v.get("actual")):
         return
     spec = dict(v["spec"])
-    budget = [12]
+    budget = [16]
 
     def fails(sp):
         if budget[0] <= 0:
@@ -417,6 +595,19 @@ def shrink_first(ctx, quick):
         budget[0] -= 1
         res = check_programs(ctx, [sp], quick, "shrink", want_pacing="exceeds" in v["what"])
         return any(l == "violation" and w.split("(")[0] == v["what"].split("(")[0] for l, w, _ in res[0]["problems"])
+    if spec.get("live"):
+        # the smallest rung of the size ladder at which it still fails (the threshold lies between it and the next smaller rung)
+        lv = spec["live"]
+        for n in sorted({x for x in CHAIN_LADDER + WIDE_LADDER + [2000, 1500, 1300, 1200, 1050, 1000, 900] if x < lv["n"]}, reverse=True):
+            cand = dict(spec, live=dict(lv, n=n))
+            if not fails(cand):
+                v["passes_at_live_set_size"] = n
+                break
+            spec = cand
+        if spec["live"].get("anchor") != "global":
+            cand = dict(spec, live=dict(spec["live"], anchor="global"))
+            if fails(cand):
+                spec = cand
     for simpl in ({"ballast": 0}, {"wrap": "top"}, {"probe": 0}, {"kept": [], "ring": 0}):
         cand = dict(spec, **simpl)
         if cand != spec and fails(cand):
@@ -1041,6 +1232,12 @@ def run(ctx):
     specs.append({"frags": ["vec2", "tuple", "inst"], "kept": [], "ring": 0, "wrap": "top", "ballast": 4000, "probe": 50})
     results = check_programs(ctx, specs, quick, "loops")
     report(ctx, results)
+    import time
+    tl = time.time()
+    lspecs = gen_live_specs(rng, "quick" if quick else "thorough")
+    lresults = check_live_shapes(ctx, lspecs, quick, "live")
+    report(ctx, lresults)
+    log("[C16] %d live-shape programs: %.1fs" % (len(lspecs), time.time() - tl))
     shrink_first(ctx, quick)
     rcases = [gen_range_case(rng) for _ in range(30 if quick else 400)]
     evict = check_range_cases(ctx, rcases, "cases")
@@ -1067,10 +1264,13 @@ def run(ctx):
     from collections import Counter
     fr = Counter(f for r in results for f in r["spec"]["frags"])
     ctx.cov.update({
-        "evaluations": 4 * len(specs) + len(rcases) + 1 + nrepl + nrunlog + nchain_runs + len(pspecs),
+        "evaluations": 4 * len(specs) + 4 * len(lspecs) + len(rcases) + 1 + nrepl + nrunlog + nchain_runs + len(pspecs),
         "profile_programs": len(pspecs), "profile_shapes": dict(Counter(i["pspec"]["profile"] for i in pinfos)),
         "profile_log_records_replayed": sum(i["records"] for i in pinfos), "profile_paced_collections": sum(i["collections"] for i in pinfos),
         "profile_collections_after_live_set_halved": sum(i["shrinks"] for i in pinfos), "profile_max_heap_bytes": max([i["max"] for i in pinfos] + [0]),
+        "live_shape_programs": len(lspecs), "live_shapes": sorted({live_name(r["spec"]["live"]) for r in lresults}),
+        "live_shape_max_live_boxes_after_run": max([r.get("nobj", 0) for r in lresults] + [0]),
+        "live_shape_paced_collections": sum(r["collections"] for r in lresults), "live_shape_log_records_replayed": sum(r["records"] for r in lresults),
         "handout_scenarios_fixed": len(handout_fixed()),
         "live_boxes_of_a_kind_unknown_to_the_harness_size_table_max": UNKNOWN_KIND_BOXES[0],
         "chain_scenarios": nchains, "chain_runs": nchain_runs,
@@ -1101,7 +1301,13 @@ def search(ctx):
     ctx.tier = "thorough"
     try:
         rng = ctx.rng
-        # directed first: live-set profiles (every shape twice): pacing rules that differ from 2 x survivors only when the
+        # directed first (round 9): the shape of the live set as a scale dimension, the largest rungs first, whole ladder
+        lres = check_live_shapes(ctx, gen_live_specs(rng, "search"), False, "searchlive", stop_after=3)
+        report(ctx, lres)
+        if len(ctx.violations) >= 3:
+            shrink_first(ctx, False)
+            return
+        # live-set profiles (every shape twice): pacing rules that differ from 2 x survivors only when the
         # survivors shrink, floors, ratchets; accounting drift shows at their probes and on the empty heap
         pinfos = check_phases(ctx, [gen_phase_spec(rng, p) for p in PHASE_PROFILES * 2], "search")
         report_phases(ctx, pinfos)
